@@ -293,7 +293,7 @@ Definition SpatialVector_rmul (sc : cls) (l : kind) : mres :=              (* :2
 Definition SpatialVelocity_matmul (lc : cls) (r : kind) : mres :=          (* :402 -> SpatialM6.cross :306-320, v = self.A indexed *)
   match r with
   | Obj rc => if negb (n =? 1) then Out Raise
-              else if isinst rc (C SpatialVelocity) then Out (Value (RObj SpatialAcceleration) Computed)
+              else if isinst rc (B SpatialM6) then Out (Value (RObj SpatialAcceleration) Computed)      (* fix 66a8f3b: any motion vector *)
               else if isinst rc (B SpatialF6) then Out (Value (RObj SpatialForce) Computed)
               else Out Raise
   | _ => Out Raise
@@ -579,7 +579,7 @@ Definition documented (n : nat) (o : op) (l r : kind) : spec :=
       if is_scalar l && is_pose b then May (arr n) else MustRaise
   | Pow, Obj a, KInt => if is_pose a || is_quat a then May (RObj a) else MustRaise
   | MatMul, Obj a, Obj b =>
-      if cls_beq a SpatialVelocity && cls_beq b SpatialVelocity then May (RObj SpatialAcceleration)
+      if cls_beq a SpatialVelocity && isinst b (B SpatialM6) then May (RObj SpatialAcceleration)     (* cross(): SpatialM6 -> SpatialM6 *)
       else if cls_beq a SpatialVelocity && isinst b (B SpatialF6) then May (RObj SpatialForce)
       else MustRaise
   (* ---- comparisons: same class -> booleans (a list for a multi-valued sequence), without raising *)
